@@ -433,6 +433,9 @@ class Report:
         print("%s tier=%s seed=%s evaluations=%d distinct=%d wall=%.1fs counters=%s" % (
             self.pid, self.tier, self.seed, self.evaluations, ndist, wall,
             json.dumps(self.counters, sort_keys=True)[:1500]))
+        # shard logs can be gigabytes in the thorough tier: keep them only when something has to be looked at
+        if not new and not self.inconclusive and not os.environ.get("VERIF_KEEP_RUN"):
+            shutil.rmtree(os.path.join(BUILD_ROOT, "run", self.pid), ignore_errors=True)
         if new:
             for key, v, p in replay_paths:
                 print("VIOLATION property=%s replay=%s  # %s: %s (x%d)" % (self.pid, p, key, v["what"], v["count"]))
